@@ -76,6 +76,11 @@ def _cases(tier, seed):
     for dt in ('float64', 'complex128'):
         for op in ('mul', 'rmul'):
             cs.append({'scen': 'ttm_scalar', 's': {'op': op, 'M': [2, 1], 'N': [1, 3], 'RA': [1, 2, 1], 'dtype': dt, 'skind': 'complex'}})
+    # the operands alias each other: A (op) A, and two objects over one core list
+    for M, N, RA in [([2], [3], [1, 1]), ([2, 1], [1, 3], [1, 2, 1]), ([2, 2, 1], [1, 2, 2], [1, 2, 2, 1])]:
+        for op in ('add', 'sub', 'mul'):
+            for al in ('same', 'shared_list'):
+                cs.append({'scen': 'ttm_binop', 's': {'op': op, 'M': M, 'N': N, 'RA': RA, 'RB': RA, 'dtype': 'float64', 'alias': al}})
     # zero scalars on operators of every dtype (the zero shortcut builds its own cores)
     for dt in ('complex128', 'float32', 'complex64'):
         for op in ('mul', 'rmul', 'add', 'sub', 'rsub'):
